@@ -111,6 +111,9 @@ def agent_open_of(c):
 def run_case(case):
     cfg = case['cfg']
     out = []
+    # the OPEN of a fresh boot with this configuration (computed before this case's simulator exists)
+    fs = mk_sim(cfg)
+    ref = agent_open_of(ss.connect(fs))[1]
     sim = mk_sim(cfg)
     r = sim.reactor
     sim.boot()
@@ -164,10 +167,6 @@ def run_case(case):
                     r.peer_close(live[-1])
                     r.settle(fire_due=True)
     # ---------------------------------------------------------------- the agent's OPENs
-    ref = None
-    fs = mk_sim(cfg)
-    fc = ss.connect(fs)
-    ref = agent_open_of(fc)[1]
     for i, ob in enumerate(opens):
         if ob != ref:
             out.append(('open:differs-from-fresh-boot:%s' % open_diff(ref, ob),
